@@ -85,6 +85,12 @@ def workload(tier, seed, scale=1.0):
             add(x, 2, 'scaled-sq')
             add(x, 3, 'scaled-cb')
             add(x, rnd.choice((4, 5, 7)), 'scaled-n')
+    from ..core import special_values
+    for v in special_values():
+        for n in (1, 2, 3, 5, 7, 63, 64, 65):
+            add(v, n, 'pool')
+            if n % 2:
+                add(-v, n, 'pool-neg', 'I')
     # negatives
     for x in (-1, -8, -9, -(1 << 64), -(1 << 200) - 1, -rand_digits(rnd, 17, 0), -rand_digits(rnd, 40, 0)):
         for n in (0, 1, 2, 3, 4, 5, 64, 65):
